@@ -5,7 +5,7 @@
 -/
 import Nuts.Model.Tx
 import NutsProofs.Lemmas.ReopenAll
-import NutsProofs.Facts
+import NutsProofs.Pins.Appliers
 namespace NutsProofs.C13
 open Nuts Nuts.Model Nuts.Model.DB
 
